@@ -132,6 +132,7 @@ func derefNamedT(t types.Type) (string, bool) {
 }
 
 func runC09(c *Ctx) {
+	c.claimsBeforePodUpdate("C09.5-claims-before-pod-update")
 	n := c.errorDiscipline("C09.1", c.errorDisciplineScopes())
 	c.Floor("C09.1-error-returning-call-sites", n, 40)
 	c.workerWiring("C09.2")
